@@ -361,6 +361,54 @@ def equal_targets(kind: int, where: int) -> bool:
     return last == shown or fail(why='the failing spec must be shown with the target it actually received', last=last, shown=shown, body=body)
 
 
+def recovered_outer(inner: int, rec: int, outer: int) -> bool:
+    """a branching spec recovers (later branch / default= / default_factory=) and then the ENCLOSING spec itself fails with no
+    further child evaluated: the trace must end at the spec that really raised and never mention the forgiven branch"""
+    start()
+    inner, rec, outer = concretize(inner, 0, 2), concretize(rec, 0, 3), concretize(outer, 0, 2)
+    if inner is OUT or rec is OUT or outer is OUT:
+        return True
+    from glom import And
+    bad = T['forgiven_branch']
+    if inner == 0:
+        kids, kw = [bad], {}
+        if rec == 0:
+            kids.append(Val('recovered'))
+        elif rec == 1:
+            kw['default'] = 'recovered'
+        elif rec == 2:
+            kw['default_factory'] = (lambda: 'recovered')
+        else:
+            kw['default'] = T['t']
+        b = Coalesce(*kids, **kw)
+    elif inner == 1:
+        if rec == 2:
+            return True
+        b = Or(bad, Val('recovered')) if rec == 0 else Or(bad, default=('recovered' if rec == 1 else T['t']))
+    else:
+        if rec == 2:
+            return True
+        b = Switch([(bad, Val(0)), (Val(1), Val('recovered'))]) if rec == 0 else Switch([(bad, Val(0))], default=('recovered' if rec == 1 else T['t']))
+    if outer == 0:
+        spec = Check(b, type=dict)                       # the Check itself rejects the recovered value
+    elif outer == 1:
+        spec = Coalesce(b, skip=lambda v: True)          # recovered value skipped, nothing left: CoalesceError of the OUTER spec
+    else:
+        spec = Match(And(b, M == 'something else')) if False else Check(b, equal_to='something else')
+    try:
+        glom({'t': 1}, spec)
+        return fail(why='expected the enclosing spec to fail')
+    except GlomError as e:
+        s = str(e)
+    parsed = parse(s)
+    if parsed is None:
+        return fail(why='header', s=s)
+    body = parsed[1]
+    reach('recovered_outer')
+    leaked = [l for l in body if 'forgiven_branch' in l and ('Spec: T[' in l or 'PathAccessError' in l) and 'Spec: C' not in l and 'Spec: O' not in l and 'Spec: S' not in l]
+    return (not leaked) or fail(why='the forgiven branch appears in the trace of a later failure', leaked=leaked, body=body)
+
+
 class R:
     """object with a repr of a given length and a (possibly failing) len()"""
     def __init__(self, n, ln):
@@ -445,6 +493,7 @@ def obligations(tier):
                           timeout=300 if q else 1200, path_timeout=60))
     obs.append(Ob(branch_kinds, pre='0 <= kind <= 4 and 2 <= n_fail <= 3', name='branch_kinds', timeout=200))
     obs.append(Ob(equal_targets, pre='0 <= kind <= 3 and 0 <= where <= 1', name='equal_targets', timeout=200))
+    obs.append(Ob(recovered_outer, pre='0 <= inner <= 2 and 0 <= rec <= 3 and 0 <= outer <= 2', name='recovered_outer', timeout=300))
     for nk in range(9):
         obs.append(Ob(truncate, fixed={'nk': nk}, pre='14 <= maxlen <= 121 and 0 <= lk <= 4', name='truncate_n%d' % nk, timeout=300))
     for depth in range(1, 4 if q else 5):
